@@ -31,6 +31,7 @@ type siReport struct {
 	cases    int
 	distinct map[string]bool
 	fails    []string
+	perGroup map[string]int
 }
 
 func (r *siReport) ok(name string) {
@@ -41,7 +42,17 @@ func (r *siReport) ok(name string) {
 func (r *siReport) fail(name, what string) {
 	r.cases++
 	r.distinct[name] = true
-	if len(r.fails) < 40 {
+	// at most 6 reported failures per case group (the name up to the first '/'): the cases of a recorded finding
+	// must not use up the room of the others
+	group := name
+	if i := strings.Index(name, "/"); i >= 0 {
+		group = name[:i]
+	}
+	if r.perGroup == nil {
+		r.perGroup = map[string]int{}
+	}
+	r.perGroup[group]++
+	if r.perGroup[group] <= 6 && len(r.fails) < 400 {
 		r.fails = append(r.fails, name+" :: "+what)
 	}
 }
@@ -124,6 +135,39 @@ type ZNested struct {
 	MML map[string]map[int32][]string
 	LLM [][]map[string]int64
 	MT  map[string]time.Time
+}
+
+// every element kind in lists and as map keys and values; struct-typed fields by value and by pointer
+type ZKinds struct {
+	Bools []bool
+	I8s   []int8
+	I16s  []int16
+	Is    []int
+	U16s  []uint16
+	U32s  []uint32
+	U64s  []uint64
+	Us    []uint
+	F32s  []float32
+	Bins  [][]byte
+	MI8   map[int8]int16
+	MU    map[uint16]uint64
+	MB    map[bool]string
+	MF    map[float64]float32
+	MBin  map[string][]byte
+	MI64  map[int64]int64
+}
+type ZFields struct {
+	V   ZInner
+	P   *ZInner
+	NP  *ZInner
+	T   *time.Time
+	NT  *time.Time
+	LV  [][]ZInner
+	MLV map[string][]ZInner
+}
+type ZPtrLists struct {
+	LP  [][]*ZInner
+	MLP map[string][]*ZInner
 }
 type ZAnon struct {
 	Name  string
@@ -376,7 +420,43 @@ func siZoo(rng *rand.Rand, n int) map[string]interface{} {
 		nz.MM["nil"] = nil
 		nz.ML["nil"] = nil
 	}
+	kz := &ZKinds{MI8: map[int8]int16{}, MU: map[uint16]uint64{}, MB: map[bool]string{}, MF: map[float64]float32{}, MBin: map[string][]byte{}, MI64: map[int64]int64{}}
+	fz := &ZFields{V: ZInner{int32(n), "v"}, P: &ZInner{int32(-n), "p"}, MLV: map[string][]ZInner{}}
+	pz := &ZPtrLists{MLP: map[string][]*ZInner{}}
+	if n%2 == 1 {
+		tt := siMillis(rng)
+		fz.T = &tt
+	}
+	for i := 0; i < n && i < 20; i++ {
+		kz.Bools = append(kz.Bools, i%3 == 0)
+		kz.I8s = append(kz.I8s, int8(i*13))
+		kz.I16s = append(kz.I16s, int16(i*4099))
+		kz.Is = append(kz.Is, i*100000007%math.MaxInt32-i)
+		kz.U16s = append(kz.U16s, uint16(65535-i))
+		kz.U32s = append(kz.U32s, math.MaxUint32-uint32(i))
+		kz.U64s = append(kz.U64s, uint64(1)<<62+uint64(i))
+		kz.Us = append(kz.Us, uint(i)<<33)
+		kz.F32s = append(kz.F32s, float32(i)/3)
+		kz.Bins = append(kz.Bins, bytes.Repeat([]byte{byte(i)}, i%5))
+		kz.MI8[int8(i-10)] = int16(-i)
+		kz.MU[uint16(i)] = uint64(i) << 50
+		kz.MB[i%2 == 0] = strconv.Itoa(i)
+		kz.MF[float64(i)+0.5] = float32(i) + 0.25
+		kz.MBin["b"+strconv.Itoa(i)] = []byte{byte(i), 0}
+		kz.MI64[int64(i)<<40] = -int64(i) << 35
+		fz.LV = append(fz.LV, []ZInner{{int32(i), "a"}, {int32(i + 1), ""}})
+		fz.MLV["k"+strconv.Itoa(i)] = []ZInner{{int32(i), "m"}}
+		pz.LP = append(pz.LP, []*ZInner{{int32(i), "a"}, nil})
+		pz.MLP["k"+strconv.Itoa(i)] = []*ZInner{nil, {int32(i), "m"}}
+	}
 	return map[string]interface{}{
+		"element-kinds":         kz,
+		"struct-fields":         fz,
+		"pointer-lists":         pz,
+		"[]bool":                kz.Bools,
+		"[]uint32":              kz.U32s,
+		"[]float32":             kz.F32s,
+		"[][]byte":              kz.Bins,
 		"nested-containers":     nz,
 		"[]map":                 nz.LM,
 		"[][]map":               nz.LLM,
@@ -495,10 +575,10 @@ func siC01(r *siReport) {
 		r.ok(cn)
 	}
 	if siDeep() {
-		r.done("zoo of 10 shapes x every length 0..600 and 1023..5000 across the list growth steps x seeded contents; 14 top-level scalars")
+		r.done("zoo of 24 shapes x every length 0..600 and 1023..5000 across the list growth steps x seeded contents; 14 top-level scalars")
 		return
 	}
-	r.done("zoo of 10 shapes x lengths {0..600 incl. every length form and the 8-bit wrap points, and 1023..5000 across the list growth steps} x seeded contents; 14 top-level scalars")
+	r.done("zoo of 24 shapes (scalars, lists, maps, eight nested container shapes, every element kind, struct fields by value and pointer, top-level lists and maps) x lengths {0..600 incl. every length form and the 8-bit wrap points, and 1023..5000 across the list growth steps} x seeded contents; 14 top-level scalars")
 }
 
 // ---------------------------------------------------------------- C09: strings and binaries around chunk boundaries
@@ -1652,7 +1732,7 @@ func siC14(r *siReport) {
 		}
 	}
 	rec(nil)
-	r.done(fmt.Sprintf("every prefix and 20 single-octet substitutions (thorough tier: all 256 for messages up to 120 octets) at every position of the valid messages of 10 zoo values (long messages subsampled), with and without type map; all 14424 strings of length <=3 over a 24-symbol tag alphabet; %d inputs ended in a recorded reflect-assignment panic (known finding)", siKnownPanics))
+	r.done(fmt.Sprintf("every prefix and 20 single-octet substitutions (thorough tier: all 256 for messages up to 120 octets) at every position of the valid messages of 24 zoo values (long messages subsampled), with and without type map; all 14424 strings of length <=3 over a 24-symbol tag alphabet; %d inputs ended in a recorded reflect-assignment panic (known finding)", siKnownPanics))
 }
 
 var siKnownPanics int
